@@ -1,6 +1,10 @@
 /- The source-translated score and severity functions (`Generated/Formulas.lean`, rewritten from /repo on every run by
    go/formulas) are the model's.  Every theorem of C01–C06 and C13 is stated about the model's functions; these
-   equalities carry them over to the text of the Go functions as it is now. -/
+   equalities carry them over to the text of the Go functions as it is now.
+
+   Each proof tries the script written for the pinned tree first and then a generic one (`tie_leaves`) that does not
+   depend on the shape of the control flow on the source side: a rewrite of the Go code that keeps every floating-point
+   operation and its operands (helpers extracted, branches merged or split, early returns, switches) still checks. -/
 import CvssVerif.Generated.Formulas
 
 namespace CvssVerif.FormulaTie
@@ -9,48 +13,50 @@ open CvssVerif CvssVerif.F64
 theorem cbv_eq {α : Type} (n : Nat) (k : Nat → α) : cbv n k = k n := by
   unfold cbv; cases n <;> rfl
 
+/-- closes `source function = model function` after both sides have been unfolded, whatever the shape of the control
+    flow on the source side: every `if`/`match` of either side is split and each leaf is closed by reflexivity or by the
+    contradiction between the branch conditions -/
+macro "tie_leaves" : tactic => `(tactic|
+  (try simp only [cbv_eq, decide_eq_true_eq]
+   try simp only [V3.c642, V3.c752, V3.c0029, V3.c325, V3.c002, V3.c822, V3.c108, V3.c0915, V3.c09731,
+     V2.c1041, V2.c20, V2.c1176, V2.c06, V2.c04, V2.c15,
+     F64.one, F64.ten, F64.hundred, F64.c1e4, F64.c1e5, F64.four, F64.seven, F64.nine, F64.zero]
+   repeat' split
+   all_goals first
+     | rfl
+     | (simp_all; done)
+     | (simp_all <;> rfl)))
+
 /-! ### v3 -/
 section v3
 open CvssVerif.V3
 
 theorem roundUp3 (x : Nat) : Gen.F3.roundUp x = V3.roundUp x := by
   unfold Gen.F3.roundUp V3.roundUp
-  simp only [cbv_eq, decide_eq_true_eq]
-  rfl
+  first
+    | (simp only [cbv_eq, decide_eq_true_eq]; rfl)
+    | tie_leaves
 
 theorem severity3 (x : Nat) : Gen.F3.severity x = V3.severityF x := by
   unfold Gen.F3.severity V3.severityF
-  rfl
+  first
+    | rfl
+    | tie_leaves
 
 theorem base3 (o : Obj3) : Gen.F3.Base_Score o = V3.baseScore o := by
-  unfold Gen.F3.Base_Score V3.baseScore
-  cases h : getErrorBase o with
-  | some e => simp
-  | none =>
-    simp only [Option.isSome_none, Bool.false_eq_true, ↓reduceIte]
-    unfold baseScoreF baseCore impactBaseF combine easeF issF
-    simp only [cbv_eq, roundUp3]
-    cases hs : (o.field M3.S == 2) <;> simp <;> rfl
+  unfold Gen.F3.Base_Score V3.baseScore baseScoreF baseCore impactBaseF combine easeF issF
+  try simp only [roundUp3]
+  cases h : getErrorBase o <;> simp only [Option.isSome_none, Option.isSome_some] <;> tie_leaves
 
 theorem temporal3 (o : Obj3) : Gen.F3.Temporal_Score o = V3.temporalScore o := by
-  unfold Gen.F3.Temporal_Score V3.temporalScore
-  cases h : getErrorTemporal o with
-  | some e => simp
-  | none =>
-    simp only [Option.isSome_none, Bool.false_eq_true, ↓reduceIte, base3, roundUp3]
-    rfl
+  unfold Gen.F3.Temporal_Score V3.temporalScore temporalF
+  try simp only [base3, roundUp3]
+  cases h : getErrorTemporal o <;> simp only [Option.isSome_none, Option.isSome_some] <;> tie_leaves
 
 theorem env3 (o : Obj3) : Gen.F3.Environmental_Score o = V3.envScore o := by
-  unfold Gen.F3.Environmental_Score V3.envScore
-  cases h : getErrorEnv o with
-  | some e => simp
-  | none =>
-    simp only [Option.isSome_none, Bool.false_eq_true, ↓reduceIte]
-    unfold envScoreF envCore modImpactF combine easeF missF temporalF
-    simp only [cbv_eq, roundUp3]
-    cases hs : msIsChanged (o.field M3.MS) (o.field M3.S) <;> simp
-    · rfl
-    · by_cases hv : o.ver = 2 <;> simp [hv] <;> rfl
+  unfold Gen.F3.Environmental_Score V3.envScore envScoreF envCore modImpactF combine easeF missF temporalF
+  try simp only [base3, temporal3, roundUp3]
+  cases h : getErrorEnv o <;> simp only [Option.isSome_none, Option.isSome_some] <;> tie_leaves
 
 end v3
 
@@ -58,12 +64,16 @@ end v3
 section v2
 open CvssVerif.V2
 
-theorem roundTo1 (x : Nat) : Gen.F2.roundTo1Decimal x = V2.roundTo1 x := rfl
-theorem roundTo2 (x : Nat) : Gen.F2.roundTo2Decimal x = V2.roundTo2 x := rfl
+theorem roundTo1 (x : Nat) : Gen.F2.roundTo1Decimal x = V2.roundTo1 x := by
+  unfold Gen.F2.roundTo1Decimal V2.roundTo1
+  first | rfl | tie_leaves
+theorem roundTo2 (x : Nat) : Gen.F2.roundTo2Decimal x = V2.roundTo2 x := by
+  unfold Gen.F2.roundTo2Decimal V2.roundTo2
+  first | rfl | tie_leaves
 
 theorem severity2 (x : Nat) : Gen.F2.severity x = V2.severityF x := by
   unfold Gen.F2.severity V2.severityF
-  rfl
+  first | rfl | tie_leaves
 
 /-- `(*Base).score(impact)`: the validity test and the equation -/
 theorem baseOf2 (o : Obj2) (impact : Nat) :
@@ -71,42 +81,33 @@ theorem baseOf2 (o : Obj2) (impact : Nat) :
       (match getErrorBase o with
        | some _ => 0
        | none => scoreOfImpact impact (o.field M2.AV) (o.field M2.AC) (o.field M2.Au)) := by
-  unfold Gen.F2.Base_score
-  cases h : getErrorBase o with
-  | some e => simp
-  | none =>
-    simp only [Option.isSome_none, Bool.false_eq_true, ↓reduceIte]
-    unfold scoreOfImpact
-    simp only [cbv_eq, roundTo1, roundTo2]
-    cases hi : F64.eq impact 0 <;> simp <;> rfl
+  unfold Gen.F2.Base_score scoreOfImpact
+  try simp only [roundTo1, roundTo2]
+  cases h : getErrorBase o <;> simp only [Option.isSome_none, Option.isSome_some] <;> tie_leaves
 
 theorem base2 (o : Obj2) : Gen.F2.Base_Score o = V2.baseScore o := by
-  unfold Gen.F2.Base_Score V2.baseScore
-  cases h : getErrorBase o with
-  | some e => simp
-  | none =>
-    simp only [Option.isSome_none, Bool.false_eq_true, ↓reduceIte, baseOf2, h, roundTo2]
-    rfl
+  unfold Gen.F2.Base_Score V2.baseScore impactF
+  try simp only [baseOf2, roundTo1, roundTo2]
+  cases h : getErrorBase o <;> simp only [Option.isSome_none, Option.isSome_some] <;> tie_leaves
 
 theorem temporalOf2 (o : Obj2) (bs : Nat) :
     Gen.F2.Temporal_score o bs = temporalOf bs (o.field M2.E) (o.field M2.RL) (o.field M2.RC) := by
   unfold Gen.F2.Temporal_score temporalOf
-  simp only [roundTo1]
+  try simp only [roundTo1, roundTo2]
+  try tie_leaves
 
 theorem temporal2 (o : Obj2) : Gen.F2.Temporal_Score o = V2.temporalScore o := by
   unfold Gen.F2.Temporal_Score V2.temporalScore
-  cases h : getErrorTemporal o with
-  | some e => simp
-  | none => simp only [Option.isSome_none, Bool.false_eq_true, ↓reduceIte, base2, temporalOf2]
+  try simp only [base2, temporalOf2, roundTo1, roundTo2]
+  cases h : getErrorTemporal o <;> simp only [Option.isSome_none, Option.isSome_some] <;> tie_leaves
 
+set_option maxRecDepth 8000 in
 theorem env2 (o : Obj2) : Gen.F2.Environmental_Score o = V2.envScore o := by
-  unfold Gen.F2.Environmental_Score V2.envScore
-  cases h : getErrorEnv o with
-  | some e => simp
-  | none =>
-    simp only [Option.isSome_none, Bool.false_eq_true, ↓reduceIte, base2, temporalOf2, baseOf2, roundTo1, roundTo2]
-    unfold adjImpactF
-    cases he : envEmpty o <;> cases ht : tempEmpty o <;> simp <;> rfl
+  unfold Gen.F2.Environmental_Score V2.envScore adjImpactF
+  try simp only [base2, temporalOf2, baseOf2, roundTo1, roundTo2]
+  cases h : getErrorEnv o <;> simp only [Option.isSome_none, Option.isSome_some] <;>
+    cases he : envEmpty o <;> cases ht : tempEmpty o <;>
+    (try simp only [Bool.false_eq_true, ↓reduceIte]) <;> tie_leaves
 
 end v2
 end CvssVerif.FormulaTie
